@@ -225,10 +225,26 @@ def greedyScan (q : Nat → Rat) : Nat → Rat × Nat
     else if r.1 < q (n+1) then (q (n+1), 1)
     else r
 
-/-- one row of the policy matrix -/
-def greedyRow (A : Nat) (q : Nat → Rat) (a : Nat) : Rat :=
+/-- one row of the policy matrix, as found: the ties are counted while the maximum is still moving and the second pass hands
+    `1/count` to everything `checkEqualGeneral` to the final maximum -/
+def greedyRowScan (A : Nat) (q : Nat → Rat) (a : Nat) : Rat :=
   let r := greedyScan q (A - 1)
   if checkEqualGeneral (q a) r.1 then 1 / ((r.2 : Nat) : Rat) else 0
+
+/-- number of i < n with p i -/
+def countTo : Nat → (Nat → Bool) → Nat
+  | 0, _ => 0
+  | n+1, p => countTo n p + (if p n then 1 else 0)
+
+/-- one row of the policy matrix, repaired form (fixes/C01-3): the true maximum first (`if (q_[aa] > max) max = q_[aa]`), then the
+    number of entries `checkEqualGeneral` to it, then `1/count` on exactly those entries -/
+def greedyRowMax (A : Nat) (q : Nat → Rat) (a : Nat) : Rat :=
+  let mx := maxTo (A - 1) q
+  if checkEqualGeneral (q a) mx then 1 / ((countTo A (fun i => checkEqualGeneral (q i) mx) : Nat) : Rat) else 0
+
+/-- `QGreedyPolicyWrapper::getPolicy`, whichever of the two shapes the translator found in the source -/
+def greedyRow (A : Nat) (q : Nat → Rat) (a : Nat) : Rat :=
+  if AITB.Gen.C01.greedyTrueMaxFirst then greedyRowMax A q a else greedyRowScan A q a
 
 def greedyPolicy (S A : Nat) (q : Mat) : Mat := mkMat S A (fun s => greedyRow A (q.get s))
 
@@ -345,6 +361,11 @@ def evalIter (m : MDP) (p : Mat) : Nat → Vec
   | 0 => mkVec m.S (fun _ => 0)
   | h+1 => let v := evalIter m p h; mkVec m.S (bellmanPi m p.get v.get)
 
+/-- h sweeps of the policy operator from the supplied start vector (warm-started PolicyEvaluation, specification side) -/
+def evalIterFrom (m : MDP) (p : Mat) (v0 : Vec) : Nat → Vec
+  | 0 => v0
+  | h+1 => let v := evalIterFrom m p v0 h; mkVec m.S (bellmanPi m p.get v.get)
+
 /-! ## decidable checkers evaluated on the implementation's own output (L3) -/
 
 def allLt (n : Nat) (p : Nat → Bool) : Bool := (List.range n).all p
@@ -369,5 +390,92 @@ def checkValidPi (m : MDP) (p : Nat → Nat → Rat) : Bool :=
   allLt m.S (fun s => allLt m.A (fun a => decide (0 ≤ p s a)) && decide (sumTo m.A (fun a => p s a) = 1))
 def checkConsistentR (m : MDP) : Bool :=
   allLt m.S (fun s => allLt m.A (fun a => decide (m.R s a = sumTo m.S (fun s1 => m.T s a s1 * m.R3 s a s1))))
+
+
+/-! ## the ValueIteration object: parameters and the internal vector carried between calls -/
+
+/-- `tolerance_`, `horizon_`, `vParameter_` and the internal `v1_` (moved-from by every `return`: arbitrary content afterwards) -/
+structure VIObj where
+  tol : Rat
+  horizon : Nat
+  vParam : VF
+  v1 : VF
+
+inductive VIEvent where
+  /-- `setTolerance(e)`: throws, leaving the object as it was, when e < 0 -/
+  | setTolerance (e : Rat)
+  | setHorizon (h : Nat)
+  | setValueFunction (v : VF)
+  /-- `operator()(model)`; `movedFrom` is whatever `std::move(v1_)` leaves behind -/
+  | call (m : MDP) (rep : Rep) (movedFrom : VF)
+
+/-- one event; a call also yields its return value.  operator() reads `vParameter_` only: `v1_` is assigned on both branches of the
+    start-selection block before anything reads it (`Gen.C01.viStartSites`) -/
+def VIObj.step (o : VIObj) : VIEvent → VIObj × Option VIOut
+  | .setTolerance e => (if e < 0 then o else { o with tol := e }, none)
+  | .setHorizon h => ({ o with horizon := h }, none)
+  | .setValueFunction v => ({ o with vParam := v }, none)
+  | .call m rep junk => ({ o with v1 := junk }, some (valueIteration m rep o.horizon o.tol (some o.vParam)))
+
+def VIObj.run (o : VIObj) : List VIEvent → VIObj
+  | [] => o
+  | e :: es => (o.step e).1.run es
+
+def VIEvent.isSetter : VIEvent → Bool
+  | .call _ _ _ => false
+  | _ => true
+
+
+/-! ## `bellmanOperator(q)` (src/MDP/Utils.cpp): a fresh value function of `q.rows()` entries, then the in-place operator -/
+def bellmanOp (S A : Nat) (q : Mat) : VF := bellmanInplace A q ⟨mkVec S (fun _ => 0), mkNats S (fun _ => 0)⟩
+
+/-! ## the ONE `lp.row` buffer of LinearProgramming::operator(): filled with 1/S for the objective, then rewritten for every (s,a) -/
+
+/-- write `f i` at every index i < n of the buffer, in order (the `for s1` loop of the generic path; the dense assignment of the Eigen path) -/
+def writeTo : Nat → (Nat → Rat) → Vec → Vec
+  | 0, _, b => b
+  | n+1, f, b => (writeTo n f b).setIfInBounds n (f n)
+
+/-- one (s,a) pass over the persistent buffer: all S coefficients rewritten, then `lp.row[s] += 1.0` -/
+def lpRowPass (m : MDP) (s a : Nat) (buf : Vec) : Vec :=
+  let b := writeTo m.S (fun s1 => -m.γ * m.T s a s1) buf
+  b.setIfInBounds s (Vec.get b s + 1)
+
+/-- the whole constraint-building double loop (k = s·A + a) over the one buffer: final buffer and the rows pushed so far, in order -/
+def lpPushAll (m : MDP) : Nat → Vec → Vec × List Vec
+  | 0, buf => (buf, [])
+  | k+1, buf =>
+    let (b, rows) := lpPushAll m k buf
+    let b' := lpRowPass m (k / m.A) (k % m.A) b
+    (b', rows ++ [b'])
+
+/-! ## the PolicyEvaluation object (what PolicyIteration drives with `setValues` between evaluations) -/
+
+/-- `PolicyEvaluation<M>`: the model is bound at construction; `tolerance_`, `horizon_`, `vParameter_`, and the internal `v1_` (moved-from by every return) -/
+structure PEObj where
+  tol : Rat
+  horizon : Nat
+  vParam : Vec
+  v1 : Vec
+
+inductive PEEvent where
+  | setTolerance (e : Rat)
+  | setHorizon (h : Nat)
+  | setValues (v : Vec)
+  | call (p : Mat) (movedFrom : Vec)
+
+def PEObj.step (m : MDP) (rep : Rep) (o : PEObj) : PEEvent → PEObj × Option PEOut
+  | .setTolerance e => (if e < 0 then o else { o with tol := e }, none)
+  | .setHorizon h => ({ o with horizon := h }, none)
+  | .setValues v => ({ o with vParam := v }, none)
+  | .call p junk => ({ o with v1 := junk }, some (policyEvaluation m rep o.horizon o.tol (some o.vParam) p))
+
+def PEObj.run (m : MDP) (rep : Rep) (o : PEObj) : List PEEvent → PEObj
+  | [] => o
+  | e :: es => PEObj.run m rep (o.step m rep e).1 es
+
+def PEEvent.isSetter : PEEvent → Bool
+  | .call _ _ => false
+  | _ => true
 
 end AITB.MDP
